@@ -203,7 +203,7 @@ theorem populate_keeps_authored (e : Entry) :
     carries the server's own name and port. -/
 theorem host_port_default (srv : ServerId) (e : Entry) (nm : Str) (hn : e.name = some nm)
     (hh : e.host = none) (hp : e.port = none) :
-    gopher0Line srv e = some (e.type.getD (lit "0") ++ nm ++ [9] ++ e.selector ++ [9] ++ srv.name ++ [9] ++
+    gopher0Line srv e = some (e.type.getD (lit "0") ++ menuField nm ++ [9] ++ menuField e.selector ++ [9] ++ menuField srv.name ++ [9] ++
       toDec srv.port ++ (if e.gplus then lit "\t+\r\n" else lit "\r\n")) := by
   simp [gopher0Line, hn, hostOf, portOf, hh, hp]
 
